@@ -12,7 +12,7 @@ PYTHONPATH=/repo/src /venv/bin/python $SD/demo.py >/dev/null 2>&1; echo "demo on
 PYTHONPATH=$WT/src /venv/bin/python $SD/demo.py >/dev/null 2>&1; echo "demo on changed tree: exit $?"
 if [ -z "$SKIP_BASELINE" ]; then /verif/tools/baseline.py $WT | head -5; fi
 for id in "$@"; do
-  VERIF_PNC_SRC=$WT/src /verif/check $id --tier ${TIER:-quick} > /tmp/sv_$NAME.$id.log 2>&1; rc=$?
+  VERIF_EVIDENCE_DIR=/tmp/sv_evidence VERIF_PNC_SRC=$WT/src /verif/check $id --tier ${TIER:-quick} > /tmp/sv_$NAME.$id.log 2>&1; rc=$?
   echo "check $id on changed tree: exit $rc  $(grep -c '^VIOLATION' /tmp/sv_$NAME.$id.log) VIOLATION lines"
   grep -A1 '^VIOLATION' /tmp/sv_$NAME.$id.log | grep signature | cut -c1-220 | head -4
 done
